@@ -958,18 +958,31 @@ impl Log {
 		// If it exists take the writer and flush it
 		let cur_size = self.appending.read().as_ref().map_or(0, |r| r.size);
 		if cur_size > min_size {
-			if let Some(to_flush) = self.appending.write().take() {
-				let file = try_io!(to_flush.file.into_inner().map_err(|e| e.into_error()));
-				if self.sync {
-					log::debug!(target: "parity-db", "Flush: Flushing log to disk");
-					try_io!(file.sync_data());
-					log::debug!(target: "parity-db", "Flush: Flushing log completed");
+			let mut appending = self.appending.write();
+			if let Some(mut to_flush) = appending.take() {
+				if let Err(e) = Self::write_out(&mut to_flush.file, self.sync) {
+					// The file stays the appending file: a newer log file must not come into
+					// existence beside one that is not on disk, or a power loss could keep the
+					// later records and lose the earlier ones.
+					*appending = Some(to_flush);
+					return Err(e)
 				}
+				let (file, _) = to_flush.file.into_parts();
 				self.read_queue.write().push_back((to_flush.id, file));
 			}
 			return Ok(true)
 		}
 		Ok(false)
+	}
+
+	fn write_out(file: &mut std::io::BufWriter<std::fs::File>, sync: bool) -> Result<()> {
+		try_io!(file.flush());
+		if sync {
+			log::debug!(target: "parity-db", "Flush: Flushing log to disk");
+			try_io!(file.get_ref().sync_data());
+			log::debug!(target: "parity-db", "Flush: Flushing log completed");
+		}
+		Ok(())
 	}
 
 	pub fn replay_next(&self) -> Result<Option<u32>> {
